@@ -161,6 +161,7 @@ def _gen_worker(args):
         res.add(spec, st.evaluate(spec))
 
     prop()
+    res.failures = [(sig, detail, spec, widx) for sig, detail, spec in res.failures]
     return res
 
 
@@ -314,7 +315,9 @@ def run_check(check: Check, tier, seed, budget_s=None):
             results.append(sr)
             # ---- bucket failures
             buckets = {}
-            for sig, detail, spec in sr.failures:
+            for fail in sr.failures:
+                sig, detail, spec = fail[:3]
+                widx = fail[3] if len(fail) > 3 else None
                 if st.probe:
                     k = match_known([x for x in known if x["id"] == st.probe], check.triggers, sig, spec)
                 else:
@@ -323,20 +326,22 @@ def run_check(check: Check, tier, seed, budget_s=None):
                     c = known_hits.get(k["id"], (0, ""))
                     known_hits[k["id"]] = (c[0] + 1, detail)
                     continue
-                buckets.setdefault(sig, []).append((len(jdump(spec)), detail, spec))
+                buckets.setdefault(sig, []).append((len(jdump(spec)), detail, spec, widx))
+            chosen = {}
             for sig, members in sorted(buckets.items()):
                 members.sort(key=lambda m: m[0])
-                size, detail, spec = members[0]
-                # ---- shrink
-                if st.strategy is not None and st.shrink and time.time() < deadline:
-                    jobs = sr.extra.get("jobs", [])
-                    # find the worker whose run contains this bucket: re-run each until one hits (cheap: same seeds)
-                    sbudget = 120 if tier == "quick" else 600
-                    sdl = min(deadline, time.time() + (90 if tier == "quick" else 600))
-                    outs = pool.map(_shrink_worker, [(si, j[3], j[2], sig, sbudget, sdl) for j in jobs], chunksize=1)
-                    for _, sspec, sdetail, _ in outs:
-                        if sspec is not None and len(jdump(sspec)) < size:
-                            size, detail, spec = len(jdump(sspec)), sdetail, sspec
+                chosen[sig] = list(members[0])
+            # ---- shrink: per bucket, re-run the generating worker that saw its smallest member (same seed => same cases) and let
+            # Hypothesis shrink on "same bucket"; all buckets in parallel, bounded number of evaluations and wall time
+            if st.strategy is not None and st.shrink and chosen and time.time() < deadline:
+                jobs = {j[1]: j for j in sr.extra.get("jobs", [])}
+                sbudget = 100 if tier == "quick" else 600
+                sdl = min(deadline, time.time() + (60 if tier == "quick" else 600))
+                tasks = [(si, jobs[m[3]][3], jobs[m[3]][2], sig, sbudget, sdl) for sig, m in sorted(chosen.items()) if m[3] in jobs][:NPROC]
+                for sig, sspec, sdetail, _ in pool.map(_shrink_worker, tasks, chunksize=1):
+                    if sspec is not None and len(jdump(sspec)) < chosen[sig][0]:
+                        chosen[sig][:3] = [len(jdump(sspec)), sdetail, sspec]
+            for sig, (size, detail, spec, _) in sorted(chosen.items()):
                 violations.append((sig, detail, spec, st.name, None))
     finally:
         pool.terminate()
